@@ -157,12 +157,12 @@ MsgOK(it) ==
 ---------------------------------------------------------------------------
 (* TURN client messages (RFC 5766) and ChannelData framing                 *)
 
-TurnOps == {"allocate", "refresh", "destroy", "permission", "channelbind", "rebind", "send", "channeldata"}
+TurnOps == {"allocate", "refresh", "destroy", "permission", "channelbind", "rebind", "send", "channeldata", "recvchan"}
 Transports == {"udp", "tcp"}
 
 TurnDomain ==
   {[op |-> op, tr |-> tr, ulen |-> u, rlen |-> r, nlen |-> n, fam |-> f, dlen |-> d, chan |-> c] :
-      op \in TurnOps \ {"channeldata", "send", "allocate"}, tr \in {"udp"}, u \in StrLens \ {0}, r \in {1, 6}, n \in {2, 7},
+      op \in TurnOps \ {"channeldata", "recvchan", "send", "allocate"}, tr \in {"udp"}, u \in StrLens \ {0}, r \in {1, 6}, n \in {2, 7},
       f \in {4, 6}, d \in {0}, c \in {16384}}
   \cup
   {[op |-> "allocate", tr |-> tr, ulen |-> u, rlen |-> r, nlen |-> n, fam |-> f, dlen |-> 0, chan |-> 16384] :
@@ -171,7 +171,8 @@ TurnDomain ==
   {[op |-> "send", tr |-> tr, ulen |-> u, rlen |-> 5, nlen |-> 3, fam |-> f, dlen |-> d, chan |-> 16384] :
       tr \in Transports, u \in {0, 3}, f \in {4, 6}, d \in DataLens}
   \cup
-  {[op |-> "channeldata", tr |-> tr, ulen |-> 3, rlen |-> 5, nlen |-> 3, fam |-> 4, dlen |-> d, chan |-> c] :
+  {[op |-> op, tr |-> tr, ulen |-> 3, rlen |-> 5, nlen |-> 3, fam |-> 4, dlen |-> d, chan |-> c] :
+      op \in {"channeldata", "recvchan"},       \* client -> server, and server -> client followed by a STUN message
       tr \in Transports, d \in DataLens, c \in {16384, 16385, 32767}}
 
 \* attributes RFC 5766 requires in the message (beyond the long-term credential triple + MI)
@@ -200,7 +201,7 @@ TurnRec(it) ==
     method |-> TurnMethod(it.op),
     class |-> IF it.op = "send" THEN "Indication" ELSE "Request",
     required |-> TurnRequired(it.op),
-    authenticated |-> it.op \notin {"channeldata"} /\ ~(it.op = "send" /\ it.ulen = 0),
+    authenticated |-> it.op \notin {"channeldata", "recvchan"} /\ ~(it.op = "send" /\ it.ulen = 0),
     frame |-> ChanFrame(it.tr, it.dlen) ]
 
 TurnOK(it) ==
